@@ -394,6 +394,18 @@ fn run(a: &[&str]) -> String {
         // text
         "uto_str" => pu(a[1]).to_str_radix(pu64(a[2]) as u32),
         "ito_str" => pi(a[1]).to_str_radix(pu64(a[2]) as u32),
+        "uparse_bytes" => { let d: Vec<u8> = a[2..].iter().map(|x| u8::from_str_radix(x, 16).unwrap()).collect(); opt(BigUint::parse_bytes(&d, pu64(a[1]) as u32), fu) }
+        "iparse_bytes" => { let d: Vec<u8> = a[2..].iter().map(|x| u8::from_str_radix(x, 16).unwrap()).collect(); opt(BigInt::parse_bytes(&d, pu64(a[1]) as u32), fi) }
+        "uparse" => match a[1].trim_matches('"').parse::<BigUint>() { Ok(v) => format!("Ok({})", fu(&v)), Err(_) => "Err".into() },
+        "iparse" => match a[1].trim_matches('"').parse::<BigInt>() { Ok(v) => format!("Ok({})", fi(&v)), Err(_) => "Err".into() },
+        // one object through a sequence of in-place operations (capacity grows and shrinks), then compared with a freshly built equal value
+        "imut" => { let mut x = pi(a[1]); let mut k = 2; while k + 1 < a.len() { let y = pi(a[k + 1]); match a[k] {
+                "add" => x += &y, "sub" => x -= &y, "mul" => x *= &y, "div" => x /= &y, "rem" => x %= &y, "and" => x &= &y, "or" => x |= &y, "xor" => x ^= &y,
+                "shl" => x <<= y.to_u64().unwrap() as usize, "shr" => x >>= y.to_u64().unwrap() as usize,
+                "setbit" => x.set_bit(y.to_u64().unwrap(), true), "clrbit" => x.set_bit(y.to_u64().unwrap(), false),
+                "zero" => x.set_zero(), "one" => x.set_one(), "clone_from" => x.clone_from(&y), "neg" => x = -x,
+                _ => return "UNKNOWN".into() } k += 2; }
+            let fresh = pi(&fi(&x)); format!("{} {} {:?} {}", fi(&x), x == fresh, x.cmp(&fresh), hash_of(&x) == hash_of(&fresh)) }
         "ufrom_str" => match BigUint::from_str_radix(a[1].trim_matches('"'), pu64(a[2]) as u32) { Ok(v) => format!("Ok({})", fu(&v)), Err(_) => "Err".into() },
         "ifrom_str" => match BigInt::from_str_radix(a[1].trim_matches('"'), pu64(a[2]) as u32) { Ok(v) => format!("Ok({})", fi(&v)), Err(_) => "Err".into() },
         "uto_radix_le" => format!("{:?}", pu(a[1]).to_radix_le(pu64(a[2]) as u32)),
